@@ -15,5 +15,4 @@ INVARIANT InstalledInOrder
 INVARIANT PrefixOnRaise
 INVARIANT ReaddRefused
 INVARIANT DeterminedByExtensions
-INVARIANT NoDivergence
 CHECK_DEADLOCK FALSE
